@@ -12,7 +12,10 @@ DEST = "/verif/seeded"
 EXTRA = {"C05_B": ["C17"], "C15_B": ["C15", "C16"], "C16_B": ["C16", "C15"], "C15_A": ["C15", "C16"],
          "C01_C": ["C15", "C01"], "C02_C": ["C15", "C02"], "C03_C": ["C01", "C03"], "C03_D": ["C03:thorough"], "C04_C": ["C15", "C04"],
          "C04_D": ["C15", "C04"], "C05_C": ["C06", "C15"], "C05_D": ["C03", "C05"], "C07_C": ["C17", "C07"], "C08_C": ["C15", "C08"],
-         "C08_D": ["C13", "C08"], "C09_C": ["C09", "C15"]}
+         "C08_D": ["C13", "C08"], "C09_C": ["C09", "C15"],
+         "C01_E": ["C17", "C01"], "C01_F": ["C13", "C01"], "C02_E": ["C01", "C02"], "C02_F": ["C13", "C02"], "C03_E": ["C13", "C03"],
+         "C04_E": ["C14", "C04"], "C05_E": ["C17", "C05"], "C05_F": ["C13", "C05"], "C07_E": ["C13", "C07"], "C07_F": ["C17", "C07"],
+         "C08_E": ["C15", "C08"], "C15_E": ["C03", "C15"], "C15_F": ["C01", "C15"], "C17_E": ["C01", "C17"]}
 
 
 def sh(cmd):
@@ -57,7 +60,9 @@ def main():
             "id": mid, "property": prop,
             "origin": "written by an independent sub-agent that saw only the property text and a scratch worktree of /repo (nothing from /verif)"
                       + ("; second round: the agent was also shown one-paragraph summaries of the first-round changes A/B for this property "
-                         "and asked for harder ones (histories, long inputs, cooperating edits)" if mid[-1] in "CD" else ""),
+                         "and asked for harder ones (histories, long inputs, cooperating edits)" if mid[-1] in "CD" else "")
+                      + ("; third round: the agent saw summaries of A-D and was asked for cross-API interactions, numerical edges far from the "
+                         "small cases, argument-type sensitivity, rarely used entry points and three-step histories" if mid[-1] in "EF" else ""),
             "description_and_what_it_needs_to_manifest": desc.strip(),
             "confirmed_in_scratch_worktree": {
                 "procedure": "in /tmp/wt/%s: demo on clean tree, git apply patch, 42 stable tests (guard off), demo again, revert" % prop,
